@@ -149,6 +149,11 @@ def run_random_branch(ctx, n, with_model=True):
         for (pop, ws, cum, r), ans in zip(plan, answers):
             inst.random = lambda r=r: r
             out = common.outcome_of(lambda: binning.deterministic_choice(None, pop, weights=ws))
+            out_c = common.outcome_of(lambda: binning.deterministic_choice(None, pop, cum_weights=cum))
+            ctx.count("variant:random-substituted-cum")
+            if out_c != out:
+                ctx.violation(f"random branch (no id): weights {ws} give {json.dumps(out)[:60]} but their running totals give {json.dumps(out_c)[:60]} "
+                              f"for the same draw {r!r}", {"weights": repr(ws), "cum_weights": repr(cum), "r": r, "impl_weights": out, "impl_cum": out_c})
             ctx.case(("rand", tuple(ws), r), True)
             ctx.count("variant:random-substituted")
             if "g" not in out:
@@ -161,6 +166,22 @@ def run_random_branch(ctx, n, with_model=True):
                 ctx.tie_break("ridx", {"weights": repr(ws), "r": common.dbl_str(r), "impl": i, "model": ans})
     finally:
         inst.random = orig
+    # the documented errors do not depend on whether an id was given
+    for _ in range(max(10, n // 4)):
+        npop = rng.choice([1, 2, 3, 8])
+        pop = list(range(npop))
+        ws = weights_for(rng, npop)
+        cum = list(itertools.accumulate(ws))
+        for name, kw, expect in (("both", dict(weights=ws, cum_weights=cum), "TypeError"), ("len-long", dict(weights=list(ws) + [1]), "ValueError:len"),
+                                 ("cum-len", dict(cum_weights=cum + [cum[-1] + 1]), "ValueError:len"), ("zero-total", dict(weights=[0] * npop), "ValueError:nonpositive"),
+                                 ("cum-zero-total", dict(cum_weights=[0] * npop), "ValueError:nonpositive"),
+                                 ("cum-inf", dict(cum_weights=[1] * (npop - 1) + [float("inf")]), "ValueError:nonfinite")):
+            out = common.outcome_of(lambda: binning.deterministic_choice(None, pop, **kw))
+            ctx.case(("rand-bad", name, repr(kw)), True)
+            ctx.count("variant:random-malformed")
+            if out != {"e": expect}:
+                ctx.violation(f"no id, malformed arguments ({name}) give {json.dumps(out)[:80]}, documented error is {expect}",
+                              {"pop": repr(pop), "kw": repr(kw)[:300], "impl": out})
     # unpatched draws: membership and never zero weight
     for _ in range(n):
         npop = rng.choice([2, 3, 8])
@@ -224,9 +245,11 @@ def run(ctx):
     run_contract(ctx, n)
     run_real_ids(ctx, max(30, n // 8))
     run_random_branch(ctx, max(20, n // 8))
+    choicelib.run_stateful(ctx, 40 if ctx.tier == 'quick' else 600)
 
 
 def search(ctx):
     run_contract(ctx, 2500, with_model=False)
     run_real_ids(ctx, 300, with_model=False)
     run_random_branch(ctx, 300, with_model=False)
+    choicelib.run_stateful(ctx, 300)
